@@ -17,7 +17,7 @@ POLICIES = gen.POLICIES + ["mixed", "mixed"]
 
 
 def gen_cases(ctx, n_hist, n_tree, n_consumer, tree_ops=(6, 7), big=False,
-              classes=None):
+              classes=None, fractional=True):
     rng = ctx.rng
     for i in range(n_hist):
         if big and i % 10 == 0:
@@ -28,6 +28,11 @@ def gen_cases(ctx, n_hist, n_tree, n_consumer, tree_ops=(6, 7), big=False,
                                  max_machines=rng.choice([2, 3, 4, 5]),
                                  policies=POLICIES)
         c["kind"] = "history"
+        if fractional and i % 12 == 5:
+            # non-integral (dyadic) durations, no filter: start times must not be rounded
+            c["instance"] = gen.gen_instance(rng, "fractional", max_jobs=4, max_machines=3)
+            c["filter"] = None
+            c["policy"] = rng.choice(["random_ready", "one_job_first", "round_robin", "last_machine"])
         # abandoned episodes: reset after a few steps (biased to very early), then a full episode
         if rng.random() < 0.3:
             c["abandon_after"] = [rng.choice([1, 1, 2, 3, rng.randint(1, 12)])
@@ -106,6 +111,10 @@ def run_history(ctx, case, hooks: Hooks, instance=None):
             for o2 in rr.ready():
                 cand += [(o2, m2) for m2 in range(rr.num_machines) if m2 not in rr.op_machines[o2]]
             cand += [(o2, rr.op_machines[o2][0]) for o2 in rr.unscheduled() if not rr.is_ready(o2)]
+            # operations that are already scheduled, in particular the last one of a finished job
+            cand += [(o2, rr.machine_of[o2]) for o2 in rr.scheduled()]
+            cand += [(ids[-1], rr.machine_of[ids[-1]]) for ids, n in zip(rr.job_ops, rr.job_next)
+                     if n == len(ids)] * 3
             if cand:
                 o2, m2 = rng.choice(cand)
                 ctx.count("refusable_requests_tried")
